@@ -27,7 +27,7 @@ def triage(prog, M, vc, res, tier, max_per_ob=2):
     out_v, out_k, out_i = [], [], []
     n = 0
     for ob_name, vs in by_ob.items():
-        done_new = 0
+        done_new = spurious = 0
         known_hit = {}
         for v in vs:
             sigs = v.info.get("known", {}) or {}
@@ -52,8 +52,7 @@ def triage(prog, M, vc, res, tier, max_per_ob=2):
                     v.model = m2
                 else:
                     continue
-            if done_new >= max_per_ob: continue
-            done_new += 1
+            if done_new >= max_per_ob or spurious >= 8: continue
             n += 1
             refiners = getattr(v.ctx, "model_refiners", None)
             if refiners:
@@ -66,10 +65,14 @@ def triage(prog, M, vc, res, tier, max_per_ob=2):
                 for rf in refiners: s2.add(*rf(v.ctx))
                 rr = s2.check()
                 if rr != _z3.sat:
-                    out_i.append({"vc": vc.name, "obligation": ob_name, "why": f"counterexample exists only under the kernel abstraction ({rr}); "
+                    # undecided under the abstraction: does not use up the replay budget, so that a counterexample of the same
+                    # obligation on another path still gets replayed and reported
+                    spurious += 1
+                    if spurious == 1: out_i.append({"vc": vc.name, "obligation": ob_name, "why": f"counterexample exists only under the kernel abstraction ({rr}); "
                                   "the abstraction's facts are too weak here or the kernel itself is broken (see C04)"})
                     continue
                 v.model = s2.model()
+            done_new += 1
             rec = confirm(I, vc, v, n)
             if rec.get("reproduced") is True: out_v.append(rec)
             else: out_i.append(rec)
